@@ -405,14 +405,35 @@ func TestVerifC09(t *testing.T) {
 	}
 	wg.Wait()
 	count := map[string]int{}
+	kinds := map[string]int{}
 	for ji, ls := range results {
 		for _, l := range ls {
 			fmt.Fprintln(w, l)
 			if !strings.HasPrefix(l, "#") {
 				count[jobs[ji].part]++
+				if fs := strings.Fields(l); len(fs) > 13 {
+					k := fs[13]
+					if n := strings.Count(k, ";"); n > 0 || strings.Contains(k, ":1") {
+						switch {
+						case n+1 <= 4:
+							k = fmt.Sprintf("%d-fragments", n+1)
+						case n+1 <= 16:
+							k = "5..16-fragments"
+						default:
+							k = "more-than-16-fragments"
+						}
+					}
+					kinds[k]++
+				}
 			}
 		}
 	}
+	var ks []string
+	for k, v := range kinds {
+		ks = append(ks, fmt.Sprintf("%s=%d", k, v))
+	}
+	sort.Strings(ks)
+	fmt.Fprintln(w, "# C09 results of the real code: "+strings.Join(ks, " "))
 	var keys []string
 	for k, v := range count {
 		keys = append(keys, fmt.Sprintf("%s=%d", k, v))
